@@ -53,7 +53,7 @@
 (*           scap   : cap of the idle-time counter (sec + 20 on traces),     *)
 (*           sec    : iterations of "one idle second" (1000),               *)
 (*           bound, settle : Nat]                                           *)
-(* record r: [e |-> "d"|"u", c, A, B, C] | [e |-> "t", n, phys, A, B, C] | [e |-> "w", i, k, valid]            *)
+(* record r: [e |-> "d"|"u"|"r", c, A, B, C] | [e |-> "t", n, phys, A, B, C] | [e |-> "w", i, k, valid]            *)
 (* lane: [on |-> FALSE] | [on |-> TRUE, out, idle, cb, msgs, lrr, idx, layer, repl]; C also carries run (the fresh       *)
 (*       instance exists) and, while run /\ ~on, its cb                                                          *)
 (***************************************************************************)
@@ -227,7 +227,7 @@ MonTick(m, r) ==
 MonStep(m, r) ==
   IF m.err # "" THEN m
   ELSE CASE r.e = "t" -> MonTick(m, r)
-         [] r.e \in {"d", "u"} -> MonIn(m, r)
+         [] r.e \in {"d", "u", "r"} -> MonIn(m, r)      \* "r" = OS key repeat of a held key (its output is immediate)
          [] r.e = "w" -> MonW(m, r)
          [] r.e = "panic" -> Fail(m, "panic in the code under test (lane " \o r.lane \o "): " \o r.loc)
          [] r.e = "error" -> Fail(m, "error from the code under test: " \o r.msg)
